@@ -63,6 +63,8 @@ CONTRACTS = [
                   'recovery': 'implies(old(self.parameters[pname].readerror) is not None and self.parameters[pname].readerror is None,'
                               ' Emitted(self, pname, old(sent), sent))',
                   'stored': 'implies(err is None and not validate, same_value(self.parameters[pname].value, value))',
+                  'stamped': 'implies(len(sent) > len(old(sent)) and timestamp is not None and timestamp > 0,'
+                             ' same_value(self.parameters[pname].timestamp, timestamp))',
                   'unlocked': 'not held(self.updateLock) or old(held(self.updateLock))'},
          bounded_ensures={'under_lock': 'all(nth(e, 5) for e in sent[len(old(sent)):])'},
          reach={'emitted': 'len(sent) > len(old(sent))', 'silent': 'len(sent) == len(old(sent))'},
